@@ -7,12 +7,22 @@ in  (one JSON object per line), by "kind":
                                                                         -> normalizeIdent (strategyOf d) marked ⟨s, b⟩
   {"case": n, "kind": "round", "engine": e, "h": <int>}                 -> F.round(col) over the double h/2 on engine e as the model
        evaluates it (generated decision + assumed primitive table), PySpark's value, the two primitives, the operand types
+  {"case": n, "kind": "timetables"}                                     -> sqlglot's TIME_FORMAT / TIME_MAPPING / inverse as the model has them
+  {"case": n, "kind": "fmttime", "dialect": d, "s": fmt, "dir": "read"|"write"} -> readFormat / writeFormat (sqlglot's format_time as modelled)
+  {"case": n, "kind": "timefmt", "engine": e, "input": d1, "output": d2, "execution": d3, "fmt": null|fmt}
+                                                                        -> default_time_format, format_time, format_execution_time,
+       the try_to_timestamp literal of engine e, and what the execution engine / Spark read them as
+  {"case": n, "kind": "overlay", "engine": e, "form": "omitted"|"pyInt"|"column", "rows": [[src|null, rep|null, pos|null, len|null], ..]}
+  {"case": n, "kind": "sequence", "engine": e, "rows": [[a, b], ..]}    -> F.sequence(a, b) without a step
+  {"case": n, "kind": "regexp", "engine": e, "posGiven": b, "subjects": [s, ..]}   (U+0001 in a subject marks a match)
+                                                                        -> U+0002 marks a replaced match, U+0001 a match left alone
   {"case": n, "kind": "name", "engine": e, "name": s, "quoted": b}      -> on engine e's default session: the identifier
        as `_to_sql` writes it, the dialect of the statement, what `_collect` returns for a reported name `s`, the
        user-visible result name, and whether it is CaseEq / NameEquiv to the DuckDB session's
 -/
 import SqlframeModel.Codec.C12
 import SqlframeModel.Impl.C12Round
+import SqlframeModel.Impl.C12Fns
 open Lean Sqlframe Sqlframe.Gen Sqlframe.C12
 
 structure Case where
@@ -25,7 +35,26 @@ structure Case where
   quoted : Option Bool := none
   marked : Option Bool := none
   h : Option Int := none
+  input : Option String := none
+  output : Option String := none
+  execution : Option String := none
+  fmt : Option String := none
+  dir : Option String := none
+  form : Option String := none
+  posGiven : Option Bool := none
+  subjects : Option (List String) := none
+  rows : Option (List (List (Option Json))) := none
   deriving FromJson
+
+def optStr (j : Option Json) : Option C12.Str := match j with | some (.str s) => some s.toList | _ => none
+def optInt (j : Option Json) : Option Int := match j with
+  | some j => (match j.getInt? with | .ok i => some i | .error _ => none)
+  | none => none
+def formOf : String → ArgForm | "pyInt" => .pyInt | "column" => .column | _ => .omitted
+def strJson (o : Option C12.Str) : Json := match o with | some s => toJson (String.ofList s) | none => Json.null
+def tblJson (t : C12.Tbl) : Json := Json.arr (t.map (fun kv => Json.arr #[toJson (String.ofList kv.1), toJson (String.ofList kv.2)])).toArray
+def pieceOf (c : Char) : Piece := if c = Char.ofNat 1 then .hit else .ch c
+def outChar : Out → Char | .ch c => c | .replaced => Char.ofNat 2 | .kept => Char.ofNat 1
 
 def str (cs : List Char) : String := String.ofList cs
 
@@ -93,6 +122,54 @@ def handle (line : String) : String :=
         ("operandNoScale", toJson (match roundOperand e roundPgCastNoScale with | .double => "double" | .numeric => "numeric")),
         ("operandWithScale", toJson (match roundOperand e roundPgCastWithScale with | .double => "double" | .numeric => "numeric")),
         ("scaleValid", toJson (sqlframeRoundScaleValid e))]))
+    | "timetables" =>
+      Json.compress (Json.mkObj (base ++ [("tables", Json.mkObj (timeTableDialects.map (fun d =>
+        (d, Json.mkObj [("format", toJson (timeFormatOf d)), ("mapping", tblJson (tblOf (timeMappingOf d))),
+          ("inverse", tblJson (inverseOf (tblOf (timeMappingOf d))))]))))]))
+    | "fmttime" =>
+      let d := c.dialect.getD ""
+      let x := (c.s.getD "").toList
+      let r := if c.dir.getD "read" = "write" then writeFormat d x else readFormat d x
+      Json.compress (Json.mkObj (base ++ [("out", toJson (String.ofList r))]))
+    | "timefmt" =>
+      let d : Dialects := { input := c.input.getD "spark", output := c.output.getD "spark", execution := c.execution.getD "spark" }
+      let f := c.fmt.map String.toList
+      let lit := formatExecutionTime d f
+      Json.compress (Json.mkObj (base ++ [
+        ("defaultTimeFormat", toJson (String.ofList (defaultTimeFormat d))),
+        ("formatTime", toJson (String.ofList (formatTime d f))),
+        ("formatExecutionTime", toJson (String.ofList lit)),
+        ("engineReads", toJson (String.ofList (engineReads d lit))),
+        ("sparkReads", toJson (String.ofList (sparkReads f))),
+        ("tryToTimestampLiteral", strJson (tryToTimestampLiteral (c.engine.getD "") d f)),
+        ("tryToTimestampReads", strJson ((tryToTimestampLiteral (c.engine.getD "") d f).map (engineReads d)))]))
+    | "overlay" =>
+      let e := c.engine.getD ""
+      let form := formOf (c.form.getD "omitted")
+      let rows := (c.rows.getD []).map (fun r => ({ src := optStr (r.getD 0 none), rep := optStr (r.getD 1 none), pos := optInt (r.getD 2 none), len := optInt (r.getD 3 none) } : OverlayRow))
+      Json.compress (Json.mkObj (base ++ [
+        ("emulated", toJson (overlayIsEmulated e)), ("concatSkipsNull", toJson (concatSkipsNull e)),
+        ("model", Json.arr (rows.map (fun x => strJson (sqlframeOverlay e form x))).toArray),
+        ("spec", Json.arr (rows.map (fun x => strJson (overlaySpec form x))).toArray),
+        ("inDomain", toJson (rows.map (fun x => decide x.inDomain))),
+        ("H_overlayNullOnDuckdb", toJson (rows.map (fun x => concatSkipsNull e = false || overlayIsEmulated e = false || x.allPresent form)))]))
+    | "sequence" =>
+      let e := c.engine.getD ""
+      let rows := (c.rows.getD []).map (fun r => ((optInt (r.getD 0 none)).getD 0, (optInt (r.getD 1 none)).getD 0))
+      match seqRuleOf e with
+      | none => Json.compress (Json.mkObj (base ++ [("err", toJson s!"no sequence rule for {e}")]))
+      | some rule =>
+        Json.compress (Json.mkObj (base ++ [
+          ("rule", toJson (match rule with | .direction => "direction" | .native => "native" | .const k => s!"const {k}")),
+          ("model", toJson (rows.map (fun p => sqlframeSequence rule p.1 p.2))),
+          ("spec", toJson (rows.map (fun p => sparkSequence p.1 p.2))),
+          ("H_sequenceDescendingNoStep", toJson (rows.map (fun p => decide (rule = .direction ∨ rule = .native ∨ p.1 ≤ p.2))))]))
+    | "regexp" =>
+      let e := c.engine.getD ""
+      let subs := (c.subjects.getD []).map (fun s => s.toList.map pieceOf)
+      Json.compress (Json.mkObj (base ++ [
+        ("model", toJson (subs.map (fun ps => String.ofList ((sqlframeRegexpReplace e (c.posGiven.getD false) ps).map outChar)))),
+        ("spec", toJson (subs.map (fun ps => String.ofList ((replaceAll ps).map outChar))))]))
     | k => Json.compress (Json.mkObj (base ++ [("err", toJson s!"unknown kind {k}")]))
 
 partial def loop (h : IO.FS.Stream) (out : IO.FS.Stream) : IO Unit := do
